@@ -66,9 +66,9 @@ theorem blockNameConnected_false {w : World} {nm : Name} (h : blockNameConnected
 /-! ### step, operation by operation -/
 
 theorem step_addRocktype_inv {w : World} (hI : Grid.Inv w) (nm : Name) (tag : Nat)
-    (hpre : pre w (.addRocktype nm tag) = true) : Grid.Inv (step w (.addRocktype nm tag)).w := by
-  simp only [pre, Bool.not_eq_true'] at hpre
-  simp only [step, ofR_w]
+    (hpre : preBasic w (.addRocktype nm tag) = true) : Grid.Inv (stepAddRocktype w nm tag).w := by
+  simp only [preBasic, Bool.not_eq_true'] at hpre
+  simp only [stepAddRocktype, ofR_w]
   have hI1 := newRock_inv hI { name := nm, tag := tag }
   have hname : (w.newRock { name := nm, tag := tag }).2.rname w.rocks.length = nm := by
     simp [World.rname, rk_newRock]
@@ -80,10 +80,10 @@ theorem step_addRocktype_inv {w : World} (hI : Grid.Inv w) (nm : Name) (tag : Na
     rwa [show (w.newRock { name := nm, tag := tag }).2.bk b = w.bk b from rfl]
 
 theorem step_addBlock_inv {w : World} (hI : Grid.Inv w) (nm rock : Name) (vol : Rat) (centre : Option (List Rat))
-    (hpre : pre w (.addBlock nm rock vol centre) = true) : Grid.Inv (step w (.addBlock nm rock vol centre)).w := by
-  simp only [pre, Bool.and_eq_true, Bool.not_eq_true', Option.isSome_iff_exists] at hpre
+    (hpre : preBasic w (.addBlock nm rock vol centre) = true) : Grid.Inv (stepAddBlock w nm rock vol centre).w := by
+  simp only [preBasic, Bool.and_eq_true, Bool.not_eq_true', Option.isSome_iff_exists] at hpre
   obtain ⟨⟨rt, hrt⟩, hfree⟩ := hpre
-  simp only [step, hrt, ofR_w]
+  simp only [stepAddBlock, hrt, ofR_w]
   have hrt' := hI.rd_sound _ _ hrt
   generalize hv : ({ name := nm, volume := vol, rock := rt, centre := centre, conn := [] } : Blk) = v
   have hI1 := newBlk_inv hI v
@@ -101,10 +101,10 @@ theorem step_addBlock_inv {w : World} (hI : Grid.Inv w) (nm rock : Name) (vol : 
     exact blockNameConnected_false hfree old hd
 
 theorem step_addConnection_inv {w : World} (hI : Grid.Inv w) (n0 n1 : Name) (p : ConPay)
-    (hpre : pre w (.addConnection n0 n1 p) = true) : Grid.Inv (step w (.addConnection n0 n1 p)).w := by
-  simp only [pre, Bool.and_eq_true, Option.isSome_iff_exists, bne_iff_ne, ne_eq] at hpre
+    (hpre : preBasic w (.addConnection n0 n1 p) = true) : Grid.Inv (stepAddConnection w n0 n1 p).w := by
+  simp only [preBasic, Bool.and_eq_true, Option.isSome_iff_exists, bne_iff_ne, ne_eq] at hpre
   obtain ⟨⟨⟨b0, h0⟩, ⟨b1, h1⟩⟩, hne⟩ := hpre
-  simp only [step, World.blockOrFresh, h0, h1, ofR_w]
+  simp only [stepAddConnection, World.blockOrFresh, h0, h1, ofR_w]
   have hb0 := hI.bd_sound _ _ h0
   have hb1 := hI.bd_sound _ _ h1
   generalize hv : mkCon b0 b1 p = v
@@ -120,5 +120,22 @@ theorem step_addConnection_inv {w : World} (hI : Grid.Inv w) (n0 n1 : Name) (p :
   · rw [hcn, hv0, hv1]
     intro e; subst e
     exact hne (hb0.2.symm.trans hb1.2)
+
+/-- the three constructor-and-add calls, as one lemma -/
+theorem stepBasic_inv {w : World} (hI : Grid.Inv w) (op : Op) (hpre : preBasic w op = true) :
+    Grid.Inv (stepBasic w op).w := by
+  cases op with
+  | addRocktype nm tag => exact step_addRocktype_inv hI nm tag hpre
+  | addBlock nm rock vol centre => exact step_addBlock_inv hI nm rock vol centre hpre
+  | addConnection n0 n1 p => exact step_addConnection_inv hI n0 n1 p hpre
+  | _ => simp [preBasic] at hpre
+
+theorem runBasic_inv {w : World} (hI : Grid.Inv w) (ops : List Op) (hpre : preAllBasic w ops = true) :
+    Grid.Inv (runBasic w ops) := by
+  induction ops generalizing w with
+  | nil => exact hI
+  | cons op r ih =>
+    simp only [preAllBasic, Bool.and_eq_true] at hpre
+    exact ih (stepBasic_inv hI op hpre.1) hpre.2
 
 end Proofs.Grid
